@@ -795,6 +795,29 @@ def isnan(x):
     return s_isnan(x)
 
 
+def s_nan_to_num(x):
+    """numpy.nan_to_num on one entry: NaN -> 0.0, everything finite unchanged (infinities are refused)"""
+    if type(x) is MaybeNaN:
+        v = x.value
+        vt = v.t if hasattr(v, "t") else (z3.RealVal(v) if type(v) is float else z3.IntVal(int(v)))
+        zero = z3.RealVal(0) if z3.is_real(vt) else z3.IntVal(0)
+        out = z3.simplify(z3.If(x.nan, zero, vt))
+        return SReal(out) if z3.is_real(out) else SInt(out)
+    if type(x) is float:
+        if math.isinf(x):
+            raise Unsupported("nan_to_num of an infinity")
+        return 0.0 if math.isnan(x) else x
+    return x
+
+
+def nan_to_num(x, *a, **k):
+    if a or any(v is not None and v != 0.0 and kk != "copy" for kk, v in k.items()):
+        raise Unsupported("nan_to_num with replacement values")
+    if isi(x, nd):
+        return nd._wrap(_map(s_nan_to_num, x._d), x)
+    return s_nan_to_num(x)
+
+
 def floor(x):
     if isi(x, nd):
         return nd._wrap(_map(sfloor, x._d), x)
@@ -1101,7 +1124,7 @@ def make_numpy_namespace(real_numpy):
     import types
     from .shim import ModuleShim
     ns = ModuleShim(real_numpy, {
-        "ndarray": nd, "asarray": asarray, "array": array, "zeros": zeros, "ones": ones, "isnan": isnan, "floor": floor,
+        "ndarray": nd, "asarray": asarray, "array": array, "zeros": zeros, "ones": ones, "isnan": isnan, "floor": floor, "nan_to_num": nan_to_num,
         "max": amax, "min": amin, "prod": prod, "sum": sum_, "matmul": matmul, "dot": matmul, "delete": delete,
         "append": append, "argwhere": argwhere, "clip": clip, "errstate": errstate, "argmax": argmax, "arange": arange,
         "swapaxes": swapaxes, "flipud": flipud,
